@@ -13,6 +13,9 @@ RULE = ("exhaustive: every string of <= 4 (quick) / <= 6 (thorough) symbols over
         "whose traits carry the metadata with each of the values True 1 'x' False 0 '' None absent, as class traits "
         "and as traits added after registration: the traits that fire are compared with the model and with the "
         "documented meaning (metadata is not None); "
+        "the LIST form observe(handler, [item, ...]) / @observe([...]) / Property(observe=[...]) with 0-5 items drawn "
+        "from the valid texts (with and without '*'), near-misses, halves of a bracketed text split at a comma and "
+        "ObserverExpression items, against 'rejected iff some item is rejected, else the union of the items'; "
         "pairs of spellings (blanks / redundant brackets / re-association / swapped branches / perturbed) for "
         "expression and graph equality; a case is non-trivial when it compiled or compared, distinct = "
         "distinct canonical output line")
@@ -79,6 +82,7 @@ def generate(rng, tier):
     else:   # intense
         nex, nd, nf, ne, nm = 5, 30000, 20000, 5000, 3000
     yield from _m_cases(rng, nm)
+    nl = {4: 1500, 6: 30000}.get(nex, 10000)
     for s in D.exhaustive(nex):
         yield D.case_c(s)
     texts = []
@@ -86,6 +90,7 @@ def generate(rng, tier):
         s = D.decorate(rng, D.tree_tokens(t), rng.choice([0.0, 0.1, 0.4]))
         texts.append(s)
         yield D.case_c(s)
+    yield from _l_cases(rng, nl, texts)
     for _ in range(nf):
         yield D.case_c(D.mutate(rng, rng.choice(texts)))
     for t in _derivations(rng, 3 * ne, 0.05):
@@ -131,6 +136,47 @@ def _m_cases(rng, n):
         if "*" in last and pre.startswith("["):
             pre = "child:"
         out.append(D.case_m(pre + last, spec))
+    return out
+
+
+def _l_cases(rng, n, texts):
+    """The LIST form: items from the valid texts (with and without `*`), near-misses,
+    halves of a bracketed text split at a comma, ObserverExpression items."""
+    out = [D.case_l(x) for x in (
+        [], [("=", "a")], [("=", "age"), ("=", "child.value")], [("=", "child.value"), ("=", "*")],
+        [("=", "child:*"), ("=", "age")], [("=", "*"), ("=", "*")], [("=", "[age"), ("=", "name]")],
+        [("=", "[a"), ("=", "b"), ("=", "c]")], [("~", "a:b"), ("=", "*")], [("~", "a.*"), ("~", "b")],
+        [("=", "a"), ("=", "")], [("=", "a."), ("=", "b")], [("=", "x.[a"), ("=", "a]")],
+        [("=", "a,*"), ("=", "b:*")], [("~", "a"), ("=", "[b"), ("=", "c]")])]
+    valid = [t for t in texts if len(t) <= 40]
+    for _ in range(n):
+        k = rng.choice([1, 2, 2, 2, 3, 3, 4])
+        items = []
+        budget = MAX_PATHS
+        while len(items) < k:
+            r = rng.random()
+            t = rng.choice(valid)
+            try:
+                np_ = len(D.denote(t)[0])
+            except D.NotInLanguage:
+                np_ = 1
+            if np_ > budget // 2:
+                t = rng.choice(["a", "*", "b:*", "items", "+m"])
+                np_ = 4
+            budget -= np_
+            if r < 0.12:
+                items.append(("~", t) if "*" not in t or rng.random() < 0.5 else ("=", t))
+            elif r < 0.24:
+                items.append(("=", D.mutate(rng, t)))
+            elif r < 0.36 and "," in t:
+                i = rng.choice([j for j, ch in enumerate(t) if ch == ","])
+                items.append(("=", "[" + t[:i]))
+                items.append(("=", t[i + 1:] + "]"))
+            elif r < 0.5:
+                items.append(("=", rng.choice(["*", "a:*", "b.*", "*,a", "[a,b]:*"])))
+            else:
+                items.append(("=", t))
+        out.append(D.case_l(items))
     return out
 
 
@@ -491,8 +537,154 @@ def _run_m(text, spec):
     return out, hits, tags
 
 
+def _run_l(items):
+    """observe(handler, [item, ...]) / @observe([...]) / Property(observe=[...])."""
+    from traits.api import HasTraits, Property, observe
+    from traits.observation import parsing as P
+    tags = {"list-form", "list-len:%d" % len(items)}
+    hits = []
+    arg = []
+    for k, t in items:
+        if k == "~":
+            try:
+                arg.append(P.parse(t))
+            except Exception:      # noqa: BLE001
+                return "bad-case", [], tags
+            tags.add("item:expression")
+        else:
+            arg.append(t)
+    # the three entry points
+    graphs = None
+    try:
+        deco = observe(list(arg))(_method)
+        graphs = deco._observe_inputs[-1]["graphs"]
+        del deco._observe_inputs[-1]
+        out = "ok " + D.show_graphs(graphs)
+    except Exception as e:      # noqa: BLE001
+        out = "err " + D.exc_name(e)
+    results = {"@observe": out.split()[0] + (" " + out.split()[1] if out.startswith("err") else "")}
+    try:
+        # compiled by the metaclass when the class is created (_create_property_observe_state)
+        type("WithProperty", (HasTraits,), {"p": Property(observe=list(arg))})
+        results["Property(observe=)"] = "ok"
+    except Exception as e:      # noqa: BLE001
+        results["Property(observe=)"] = "err " + D.exc_name(e)
+    obj = HasTraits()
+    try:
+        obj.observe(_noop, list(arg))
+        results["HasTraits.observe"] = "ok"
+    except Exception as e:      # noqa: BLE001
+        # a valid pattern fails here only because the probe object lacks the traits
+        # (ValueError from the observer, raised while hooking up, after compilation)
+        results["HasTraits.observe"] = "ok" if graphs is not None and D.exc_name(e) == "ValueError" \
+            else "err " + D.exc_name(e)
+    # ---------------- oracle: "If this is a list, each item must be a string or an
+    # ObserverExpression": the list stands for its items taken one by one - rejected iff
+    # some item is rejected (ValueError), otherwise the union of the items' denotations
+    expected, bad, f17 = [], [], False
+    for k, t in items:
+        try:
+            ps, info = D.denote(t)
+            if info["star_in_brackets"]:
+                f17 = True
+            expected += ps
+        except D.NotInLanguage:
+            bad.append(t)
+    if f17 and not bad:
+        tags.add("list:f17-item")
+        if graphs is None:
+            sig, what = _classify_rejected("", {"star_in_brackets": True, "dup": False})
+            hits.append(_hit(sig, what, items=items))
+        return out, hits, tags
+    if bad:
+        tags.add("list:has-invalid-item")
+        if graphs is not None:
+            hits.append(_hit("list-form-differs:accepted-invalid-item",
+                             "a list with an item that is not an expression on its own (%r) is accepted" % bad[0],
+                             items=items, observed=out[:200]))
+        elif out != "err ValueError":
+            hits.append(_hit("rejection-not-valueerror", "list rejected with %s" % out, items=items))
+    else:
+        tags.add("list:all-valid")
+        if any("*" in t for _, t in items):
+            tags.add("list:star-item")
+        if graphs is None:
+            hits.append(_hit("list-form-differs:rejected-valid-list",
+                             "a list of valid items is rejected (%s) although every item compiles on its own" % out,
+                             items=items))
+        elif set(out[3:].split("|") if out[3:] else []) != set(expected):
+            hits.append(_hit("list-form-differs:meaning", "the list does not denote the union of its items",
+                             items=items, expected=sorted(expected), observed=out[:300]))
+        else:
+            # the same graphs as the items one by one
+            one_by_one = []
+            for a in arg:
+                one_by_one += P.compile_str(a) if isinstance(a, str) else list(a._as_graphs())
+            if list(graphs) != one_by_one:
+                hits.append(_hit("list-form-differs:graphs", "graphs differ from the items compiled one by one",
+                                 items=items))
+    want = "err ValueError" if graphs is None else "ok"
+    for api, r in results.items():
+        if r != ("ok" if graphs is not None else out):
+            hits.append(_hit("list-form-differs:entry-points", "%s gives %s where @observe gives %s" % (api, r, want),
+                             items=items))
+    # registration / removal by the same list on real objects
+    if graphs is not None and not bad and len(expected) <= 64 and all(k == "=" and all(ord(c) < 128 for c in t)
+                                                                        for k, t in items) and items:
+        hits.extend(_removal_check_list([t for _, t in items], tags))
+    return out, hits, tags
+
+
+def _method(self, event):
+    pass
+
+
+def _removal_check_list(texts, tags):
+    names, metas, depth = {"items"}, set(), 1
+    for text in texts:
+        toks = D.tokenize(text)
+        prev = None
+        for t in toks:
+            if isinstance(t, tuple):
+                (metas if prev == "+" else names).add(t[1])
+            prev = t
+        depth = max(depth, sum(1 for t in toks if t in (".", ":")) + 1)
+    if len(names) > 10:
+        return []
+    cls = _dyn_class(tuple(sorted(names)), tuple(sorted(metas)))
+    if cls is None:
+        return []
+    objs = [cls() for _ in range(depth + 1)]
+    for i in range(depth):
+        for n in names:
+            setattr(objs[i], n, objs[i + 1])
+    calls = []
+    before = _hooks(objs)
+    try:
+        objs[0].observe(calls.append, list(texts))
+    except Exception as e:      # noqa: BLE001
+        tags.add("removal:observe-raised:" + type(e).__name__)
+        return []
+    tags.add("removal-checked:list")
+    try:
+        objs[0].observe(calls.append, list(texts), remove=True)
+    except Exception as e:      # noqa: BLE001
+        return [_hit("removal-by-text-raises:list", "removal by the same list raised %s" % type(e).__name__, items=texts)]
+    left = _hooks(objs) - before
+    del calls[:]
+    for o in objs:
+        for n in names:
+            setattr(o, n, cls())
+    if left or calls:
+        return [_hit("removal-by-text-leaves-hooks:list", "%d notifier(s) left, %d call(s) after removal by the same "
+                     "list" % (left, len(calls)), items=texts)]
+    return []
+
+
 def run_impl(case):
     kind, t1, t2, rel = D.parse_case(case)
+    if kind == "l":
+        return _run_l(t1)
     if kind == "c":
         return _run_c(t1)
     if kind == "m":
@@ -507,6 +699,22 @@ def nontrivial(case, out):
 def shrink(case, fails):
     """Delete characters while the same signature persists."""
     kind, t1, t2, rel = D.parse_case(case)
+    if kind == "l":
+        items = list(t1)
+        changed = True
+        while changed:
+            changed = False
+            for i in range(len(items)):
+                cands = [items[:i] + items[i + 1:]] if len(items) > 1 else []
+                k, t = items[i]
+                cands += [items[:i] + [(k, t[:j] + t[j + 1:])] + items[i + 1:] for j in range(len(t) - 1, -1, -1)]
+                for cand in cands:
+                    if fails(D.case_l(cand)):
+                        items, changed = cand, True
+                        break
+                if changed:
+                    break
+        return D.case_l(items)
     if kind == "m":
         items = t2.split(",")
         changed = True
